@@ -26,7 +26,7 @@ RULE = ('component tuples: known/unknown schemes and relative references without
 	'non-trivial = all eight components come back and the second serialisation is byte-identical; distinct by composed text')
 
 SCHEMES = [u'http', u'https', u'ftp', u'foo', u'x-y.z+1', u'svn+ssh']
-HOSTS = [u'example.com', u'a', u'h-1.x', u'sub.dom.example', u'127.0.0.1', u'10.0.0.255', u'[::1]', u'[2001:db8::1]', u'[fe80::1:2:3:4]', u'bücher.example', u'www.bücher.example', u'mail.example.рф', u'a_b', u"x!$&'()*+,;=y"]
+HOSTS = [u'3com.example', u'163.com', u'0mq.q', u'1a', u'9z', u'example.com', u'a', u'h-1.x', u'sub.dom.example', u'127.0.0.1', u'10.0.0.255', u'[::1]', u'[2001:db8::1]', u'[fe80::1:2:3:4]', u'bücher.example', u'www.bücher.example', u'mail.example.рф', u'a_b', u"x!$&'()*+,;=y"]
 SPECIAL = u':@/?#%[]&=+ ;'
 
 
@@ -38,7 +38,7 @@ def cases(rng, tier):
 	yield ('c', u'http', u'user', u'pa:ss', u'example.com', None, (u'a:', u'', u'b'), (), u'')
 	yield ('c', u'http', u'u:v', u'p', u'h', None, (), (), u'')
 	yield ('c', u'http', u'u@x', u'p@/?#%', u'h', 8080, (u'a b', u'ü', u'%41', u'x/y'), ((u'k', u'v&='),), u'fr#ag')
-	n = 80000 if tier == 'thorough' else 5000
+	n = 80000 if tier == 'thorough' else 12000
 	for _ in range(n):
 		scheme = rng.choice(SCHEMES)
 		user = text(rng, rng.choice((0, 0, 1, 3, 6)))
